@@ -6,18 +6,19 @@ import (
 	"io"
 
 	cedar "github.com/cedar-policy/cedar-go"
+	xeval "github.com/cedar-policy/cedar-go/x/exp/eval"
 )
 
 func init() { kinds["stream"] = runStream }
 
 // scripted io.Reader
 type scriptReader struct {
-	data    []byte
-	pos     int
-	sizes   []int // chunk sizes; 0 = a zero-length read; when exhausted, the last size repeats (or 4096)
-	i       int
-	failAt  int  // -1 = never; otherwise fail once pos >= failAt
-	failErr error
+	data        []byte
+	pos         int
+	sizes       []int // chunk sizes; 0 = a zero-length read; when exhausted, the last size repeats (or 4096)
+	i           int
+	failAt      int // -1 = never; otherwise fail once pos >= failAt
+	failErr     error
 	eofWithData bool
 }
 
@@ -136,4 +137,66 @@ func containsStr(s, sub string) bool {
 		}
 	}
 	return false
+}
+
+// modelReader mirrors Impl/Scanner.v `read`: a schedule of (size, fail) steps, then "as much as fits";
+// a failing step fails forever; eofWithData delivers io.EOF together with the last bytes.
+type modelStep struct {
+	n    int
+	fail bool
+}
+type modelReader struct {
+	rest  []byte
+	sched []modelStep
+	ewd   bool
+	err   error
+}
+
+func (r *modelReader) Read(p []byte) (int, error) {
+	n := len(p)
+	if len(r.sched) > 0 {
+		if r.sched[0].fail {
+			return 0, r.err
+		}
+		n = r.sched[0].n
+		r.sched = r.sched[1:]
+	}
+	if len(r.rest) == 0 {
+		return 0, io.EOF
+	}
+	k := n
+	if len(p) < k {
+		k = len(p)
+	}
+	if len(r.rest) < k {
+		k = len(r.rest)
+	}
+	if k == len(r.rest) && r.ewd && k != 0 {
+		copy(p, r.rest)
+		r.rest = nil
+		return k, io.EOF
+	}
+	copy(p, r.rest[:k])
+	r.rest = r.rest[k:]
+	return k, nil
+}
+
+func init() { kinds["tokens"] = runTokens }
+
+// tokens: <doc> (sched (n fail)...) (ewd 0|1)  ->  (ok (t type off line col text)...) | (error)
+func runTokens(payload []*Sx) *Sx {
+	doc := []byte(payload[0].Str())
+	rd := &modelReader{rest: doc, ewd: payload[2].List[1].Atom == "1", err: errors.New("scripted reader failure")}
+	for _, s := range payload[1].List[1:] {
+		rd.sched = append(rd.sched, modelStep{n: int(mustInt64(s.List[0].Atom)), fail: s.List[1].Atom == "1"})
+	}
+	toks, err := xeval.VerifTokenize(rd)
+	if err != nil {
+		return L(A("error"))
+	}
+	out := L(A("ok"))
+	for _, t := range toks {
+		out.List = append(out.List, L(A("t"), AI(t.Type), AI(t.Offset), AI(t.Line), AI(t.Column), AS(t.Text)))
+	}
+	return out
 }
